@@ -118,7 +118,9 @@ def _case(job):
         return {"path": path, "status": base.split(":")[0], "problems": []}
     res = {"path": path, "status": "ok", "problems": [], "variants": 0, "tokens": len(base)}
     for kind in kinds:
-        m = mutate(lines, kind, r)
+        m = lines
+        for k1 in kind.split("+"):
+            m = mutate(m, k1, r)
         if m == lines:
             continue
         res["variants"] += 1
@@ -165,8 +167,8 @@ def run(tier):
     ck.theorems(br, names, discharged, assumptions, broken)
     for b in broken:
         ck.broken_tie(b[:80], b)
-    files = corpus.files() if tier == "thorough" else corpus.sample(260, "c05")
-    kinds = ["ws", "split", "join", "comment", "case"]
+    files = corpus.minimised() + (corpus.files() if tier == "thorough" else corpus.sample(260, "c05"))
+    kinds = ["ws", "split", "join", "comment", "case", "split+comment", "join+case", "split+case+comment"]
     with Pool(vlib.NCPU) as p:
         res = p.map(_case, [(f, vlib.seed(), kinds) for f in files], chunksize=4)
     nvar = 0
